@@ -93,6 +93,16 @@ def child_feedthrough(mk):
     return c
 
 
+def child_cell(mk):
+    # a cell that is instantiated several times and edited in place in between: en is a constant, w an internal net
+    c = mk("cell")
+    c.add("a", "input")
+    c.add("en", "1")
+    c.add("w", "not", fanin="a")
+    c.add("y", "and", fanin=["a", "en"], output=True)
+    return c
+
+
 # each history: list of (method, args, kwargs); special methods start with '@'
 def histories():
     A = lambda *a, **k: ("add", a, k)
@@ -141,6 +151,21 @@ def histories():
                                                                   ("@add_blackbox", ("ff", ["CK", "D"], ["Q"], "u_ff", {"CK": "clk", "D": "d", "Q": "u_q"}), {}),
                                                                   ("@add_sub", ("ha", "u", {"x": "x", "s": "d"}), {}), ("nodes", (), {}), ("fanin", ("u_q",), {}), ("fanout", ("x",), {}),
                                                                   A("v_keep", "buf", fanin="x"), ("@add_sub", ("withbb", "v", {"o": "d"}), {}), ("nodes", (), {}), ("fanin", ("v_keep",), {})]
+    # the SAME child object instantiated repeatedly, edited in place in between without changing its node / edge counts (a constant
+    # becomes an input, an internal net an output): every instantiation splices the child as it is at that moment
+    H["same-child-instantiated-again-after-an-in-place-edit"] = [A("p", "input"), A("q", "buf", output=True), ("@add_sub_kept", ("cell", "u1", {"a": "p"}), {}), ("inputs", (), {}), ("outputs", (), {}),
+                                                                 ("@edit_kept", ("cell", [("set_type", ("en", "input")), ("set_output", ("w",))]), {}),
+                                                                 ("@add_sub_kept", ("cell", "u2", {"a": "p"}), {}), ("inputs", (), {}), ("outputs", (), {}), ("type", ("u2_en",), {}),
+                                                                 ("@add_sub_kept", ("cell", "u3", {"en": "p", "w": "q"}), {}), ("fanin", ("u3_en",), {}), ("fanin", ("q",), {}),
+                                                                 ("@edit_kept", ("cell", [("set_type", ("en", "0")), ("set_output", ("w", False))]), {}),
+                                                                 ("@add_sub_kept", ("cell", "u4", {"en": "p"}), {}), ("@add_sub_kept", ("cell", "u5", None), {}), ("inputs", (), {}), ("outputs", (), {})]
+    # a connect with several heads of which a LATER one is refused on the source side (a blackbox input pin as a driver, a blackbox
+    # output pin onto a gate that is no buffer / onto two loads): the call is rejected as a whole - no edge of an earlier head stays
+    H["rejected-connect-with-several-heads"] = [A("a", "input"), A("b", "input"), A("h", "and"), A("k", "or", output=True), A("w", "buf"),
+                                                ("@add_blackbox", ("ff", ["d"], ["q"], "u0", {"d": "a"}), {}),
+                                                ("connect", (["a", "u0.d"], "h"), {}), ("fanin", ("h",), {}), ("connect", (["b", "a", "u0.d"], ["h", "k"]), {}), ("fanin", ("k",), {}),
+                                                ("connect", (["a", "u0.q"], "h"), {}), ("fanin", ("h",), {}), ("connect", (["b", "u0.q"], ["w", "k"]), {}), ("fanin", ("w",), {}),
+                                                ("connect", ("u0.q", "w"), {}), ("connect", (["a", "u0.q"], "k"), {}), ("fanin", ("k",), {}), ("connect", (["u0.d", "a"], "h"), {}), ("fanin", ("h",), {})]
     H["copy-isolation"] = [A("a", "input"), A("g", "buf", fanin="a", output=True), ("@copy_then_edit", (), {}), ("set_output", (["g", "ghost"],), {}), ("fanin", ("ghost",), {})]
     H["set-output-on-removed-node"] = [A("a", "input"), A("g1", "buf", fanin="a"), A("g2", "not", fanin="a"), ("remove", ("g1",), {}), ("set_output", (["g2", "g1"],), {}), ("outputs", (), {})]
     return H
@@ -174,6 +199,17 @@ class Driver:
             which, inst, conns = args
             child = child_with_blackbox(self.mk, self.mkbb) if which == "withbb" else {"loop": child_loop, "ha": child_ha}[which](self.mk)
             return c.add_subcircuit(child, inst, dict(conns) if conns else None)
+        if meth == "@add_sub_kept":
+            which, inst, conns = args
+            kept = self.__dict__.setdefault("kept", {})
+            if which not in kept:
+                kept[which] = {"cell": child_cell}[which](self.mk)
+            return c.add_subcircuit(kept[which], inst, dict(conns) if conns else None)
+        if meth == "@edit_kept":
+            which, edits_ = args
+            for m_, a_ in edits_:
+                getattr(self.kept[which], m_)(*a_)
+            return None
         if meth == "@add_sub_self":
             # the circuit spliced into itself: "a renamed copy of sc" is a copy of the circuit as it is now (the reference gets one)
             inst, conns = args
@@ -193,7 +229,7 @@ class Driver:
         r = getattr(c, meth)(*args, **kw)
         if meth in ("remove_unloaded",):
             return sorted(r)
-        if meth in ("fanin", "outputs"):
+        if meth in ("fanin", "outputs", "inputs", "fanout"):
             return sorted(r)
         return r
 
@@ -215,11 +251,13 @@ def run_one(name, ops, repo_pkg):
     return a, b, steps
 
 
-def history_rule(chk, rule_prefix, file="circuit.py"):
-    """C07.H / C12.H"""
+def history_rule(chk, rule_prefix, file="circuit.py", only=None, floor=80):
+    """C07.H / C12.H (all histories); C06.H (`only`: the ones about splicing sub-circuits and filling blackboxes)"""
     P = Package(chk.repo, full_stack=True)
     n_steps = 0
     for name, ops in histories().items():
+        if only is not None and not only(name, ops):
+            continue
         try:
             a, b, steps = run_one(name, ops, P)
         except Unsupported as e:
@@ -248,5 +286,5 @@ def history_rule(chk, rule_prefix, file="circuit.py"):
                 prob = {"problem": "editing a copy changed the original"}
         chk.ob(f"{rule_prefix}.history", f"history::{name}", prob is None, file=file, func="Circuit", fact=prob or {"calls": len(ops)},
                expect="after every call: same outcome and state as the documented semantics, wiring invariants intact")
-    chk.floor("history steps evaluated", n_steps, 80)
+    chk.floor("history steps evaluated", n_steps, floor)
     return n_steps
